@@ -330,6 +330,7 @@ still to be created (see `Lemmas/LedgerC01Inv.lean`); the block theorem discharg
 `⌊(pool at the start of the transaction − claimStart)/10000⌋ · value`; siafunds unchanged; invariant kept. -/
 theorem c01_v2txn_conserves {T} {ms ms' : Mid} {t : Txn2} {mw : Nat} {R : List (Kind × Id)}
     (hc : Ctx T ms.base) (hfix : ms.base.child ≥ ms.base.P.ephemeralFix) (hI : Inv T ms)
+    (hm2 : ∀ e ∈ ms.base.fc2, e.fc.missedHost ≤ e.fc.host.value)
     (hF : Fresh T ms (t.created ++ R))
     (hnw : (t.sfOuts.map (·.2.1)).sum < u64Limit) (hsfb : sfTot ms < u64Limit)
     (hv : validateV2Transaction ms t mw = .ok ()) (ha : applyV2Transaction ms t = .ok ms') :
@@ -338,7 +339,7 @@ theorem c01_v2txn_conserves {T} {ms ms' : Mid} {t : Txn2} {mw : Nat} {R : List (
     (CsOk ms → CsOk ms' ∧ Psi ms' + 10000 * t.claims ms.pool ≤ Psi ms + (ms'.pool - ms.pool) * sfTot ms) ∧
     ms'.pool = ms.pool + t.taxes ∧
     (1 ≤ ms.base.P.maturityDelay → scW (wImm ms.base.child) ms + t.claims ms.pool ≤ scW (wImm ms.base.child) ms') :=
-  v2txn_conserves hc hfix hI hF hnw hsfb hv ha
+  v2txn_conserves hc hfix hI hm2 hF hnw hsfb hv ha
 
 /-- One accepted v1 transaction: potential + fees = potential before + claims; siafunds unchanged. -/
 theorem c01_v1txn_conserves {T} {ms ms' : Mid} {t : Txn1} {pid : Id} {mw : Nat} {R : List (Kind × Id)}
